@@ -285,28 +285,38 @@ def candidate_uses_its_own_identification_service(parent_kind):
 
 # the answer of the ECU is decoded by the real Response.decode of a real response description (a static field whose
 # items are padded, followed by the parameter the pattern looks at)
-@harness(props=["C14"], strength="B", family=lambda t, s: [{"use_cache": c} for c in (False, True)],
-         bound="one candidate; a real positive response: constant, static field of two padded items, one byte value; the "
-         "value in the answer symbolic",
+@harness(props=["C14"], strength="B", family=lambda t, s: [{"use_cache": c} for c in (False, True)] +
+         [{"use_cache": False, "layout": "end-of-pdu-field"}],
+         bound="one candidate; a real positive response: constant, static field of two padded items, one byte value - or "
+         "a constant and an end-of-PDU field with MAX-NUMBER-OF-ITEMS whose third item is looked at; the value in the "
+         "answer symbolic",
          functions=[VariantMatcher.request_loop, VariantMatcher._ident_response_matches, MatchingParameter.matches],
          covers=["match", "no-match"], assumes=["A-bitstruct"])
-def answers_are_decoded_by_the_real_response(use_cache):
+def answers_are_decoded_by_the_real_response(use_cache, layout="static-field"):
     """the expected value is compared with what the real response description decodes from the ECU's answer"""
     item = B.structure("item", [B.value_param("k", B.dop("u8k", 8))])
-    field = B.static_field("items", item, 2, 2)
-    resp = B.response([B.coded_const("sid", 0x62, 0), B.value_param("items", field), B.value_param("id", B.dop("u8id", 8))])
+    if layout == "static-field":
+        field = B.static_field("items", item, 2, 2)
+        resp = B.response([B.coded_const("sid", 0x62, 0), B.value_param("items", field),
+                           B.value_param("id", B.dop("u8id", 8))])
+        mp = MatchingParameter(expected_value="5", diag_comm_snref="ident", out_param_if_snref="id",
+                               out_param_if_snpathref=None)
+    else:
+        # (the library reads every item the answer holds, whatever MAX-NUMBER-OF-ITEMS says)
+        field = B.end_of_pdu_field("items", item, min_items=1, max_items=2)
+        resp = B.response([B.coded_const("sid", 0x62, 0), B.value_param("items", field)])
+        mp = MatchingParameter(expected_value="5", diag_comm_snref="ident", out_param_if_snref=None,
+                               out_param_if_snpathref="items.k")
     svc = IdentService(b"\x22\x01")
     svc.short_name = "ident"
     svc._positive_responses = [resp]
     variant = EcuVariant.__new__(EcuVariant)
     variant.diag_layer_raw = GhostVariantRaw("candidate")
-    variant.diag_layer_raw.ecu_variant_patterns = [EcuVariantPattern(matching_parameters=[
-        MatchingParameter(expected_value="5", diag_comm_snref="ident", out_param_if_snref="id",
-                          out_param_if_snpathref=None)])]
+    variant.diag_layer_raw.ecu_variant_patterns = [EcuVariantPattern(matching_parameters=[mp])]
     variant._diag_services = NamedItemList([svc])
     variant._global_negative_responses = []
     reported = H.int("id_in_the_answer", 0, 255)
-    answer = bytes([0x62, 0x11, 0x00, 0x22, 0x00]) + bytes([reported])
+    answer = bytes([0x62, 0x11, 0x00, 0x22, 0x00] if layout == "static-field" else [0x62, 0x11, 0x22]) + bytes([reported])
     matcher = VariantMatcher([variant], use_cache=use_cache)
 
     def ecu_step(item):
